@@ -128,6 +128,39 @@ def make_graph(rng, quick, hostile=False, clash=False, shape=None, extra=None):
             for a_, v_ in list(n["attrs"].items()):
                 if isinstance(v_, tuple) and v_[0] == C: n["attrs"][a_] = (UA, "i", "85") if a_ != "DataType" else (UA, "i", "24")
         g.refs = [r for r in g.refs if not ((r[0][0] == A or r[1][0] == A) and C in (r[0][0], r[1][0], r[2][0]))]
+    wide_names = None
+    if shape == "wide" and len(g.uris) >= 9:
+        # the last namespace uses the base namespace and exactly ONE other namespace, the one that the re-indexing puts at index 8; that namespace's
+        # file is parsed before the written one's.  (Index sets such as {0, 8, 1} are where an unordered container does not come out sorted.)
+        U = g.uris[-1]; D = g.uris[6]
+        mineU = [k for k in g.order if k[0] == U]
+        if not mineU:
+            k = (U, "i", "7201"); g.nodes[k] = dict(cls="UAObject", bname=(U, "WideU"), display="WideU", desc=None, attrs={}, value=None); g.order.append(k); mineU = [k]
+            g.refs.append(((UA, "i", "85"), k, (UA, "i", "35")))
+        mineD = [k for k in g.order if k[0] == D]
+        if not mineD:
+            k = (D, "i", "7202"); g.nodes[k] = dict(cls="UAObject", bname=(D, "WideD"), display="WideD", desc=None, attrs={}, value=None); g.order.append(k); mineD = [k]
+            g.refs.append(((UA, "i", "85"), k, (UA, "i", "35")))
+        for k in mineU:
+            n_ = g.nodes[k]
+            if n_["bname"][0] not in (U, UA): n_["bname"] = (U, n_["bname"][1])
+            for a_, v_ in list(n_["attrs"].items()):
+                if isinstance(v_, tuple) and v_[0] not in (U, UA): n_["attrs"][a_] = (UA, "i", "85") if a_ != "DataType" else (UA, "i", "24")
+        g.refs = [r for r in g.refs if not ((r[0][0] == U or r[1][0] == U) and any(x[0] not in (U, UA) for x in r))]
+        g.refs.append((mineU[0], mineD[0], (UA, "i", "35")))
+        # the namespace table of the graph is [UA] + g.uris in this order: files named in that order, tables not shuffled, and the first file using
+        # nothing but itself and the base namespace (a file declares the namespaces it uses first)
+        F = g.uris[0]
+        if not [k for k in g.order if k[0] == F]:
+            k = (F, "i", "7203"); g.nodes[k] = dict(cls="UAObject", bname=(F, "WideF"), display="WideF", desc=None, attrs={}, value=None); g.order.append(k)
+            g.refs.append(((UA, "i", "85"), k, (UA, "i", "35")))
+        for k in [k for k in g.order if k[0] == F]:
+            n_ = g.nodes[k]
+            if n_["bname"][0] not in (F, UA): n_["bname"] = (F, n_["bname"][1])
+            for a_, v_ in list(n_["attrs"].items()):
+                if isinstance(v_, tuple) and v_[0] not in (F, UA): n_["attrs"][a_] = (UA, "i", "85") if a_ != "DataType" else (UA, "i", "24")
+        g.refs = [r for r in g.refs if not ((r[0][0] == F or r[1][0] == F) and any(x[0] not in (F, UA) for x in r))]
+        wide_names = {u: "ns_%02d_w.xml" % i for i, u in enumerate(g.uris)}
     if shape == "markup-id":
         # a node of a written namespace whose string identifier carries markup characters and that has references across the namespace border
         own = [k for k in g.order if k[0] != UA]
@@ -162,7 +195,8 @@ def make_graph(rng, quick, hostile=False, clash=False, shape=None, extra=None):
                 n["attrs"]["DataType"] = (UA, "i", "24")          # BaseDataType: not a built-in name
     # every third graph has a companion file whose name sorts BEFORE the base nodeset: the internal ids of the base nodes then differ from graph to graph
     fnames = {g.uris[0]: "A%02d_first.xml" % rng.randint(0, 99)} if g.uris and rng.random() < 0.35 else None
-    ds = nsgen.serialise(g, rng, value_xml=parseprops.value_xml, file_names=fnames)
+    if wide_names: fnames = wide_names
+    ds = nsgen.serialise(g, rng, value_xml=parseprops.value_xml, file_names=fnames, perm=not wide_names)
     return g, ds
 
 REG_REQS = []; REG_META = []; TXT_REQS = []; TXT_META = []; CAUSES_OF = {}; RT_REQS = []; RT_META = []
@@ -344,7 +378,7 @@ def run(ctx, prop):
             st, G = graphprops.build(paths)
             if G is None: continue
             vseed = rng.randrange(2 ** 31)
-            variant, G = graph_variant(G, random.Random(vseed))
+            variant, G = graph_variant(G, random.Random(vseed), *([["as-parsed"]] if shape == "wide" else []))     # (the wide shape depends on the order of the node table)
             tables = graph_tables(G)
             outs = correspondence(ctx, prop, rng, work, reqs, meta, G, tables, g, ci, inc_choices=(True, False) if prop != "C05" else (True,))
             nodes_by_uri = {u: sum(1 for k in g.nodes if k[0] == u) for u in g.uris}
@@ -354,7 +388,7 @@ def run(ctx, prop):
                 causes = write_causes(G, tables, uri, out, inc) - {"model-version-defaulted"}
                 fl = oracle_c06(tables, uri, inc, out) if prop == "C06" else (oracle_c07(uri, out) if prop == "C07" else [])
                 for sig, detail in fl:
-                    ctx.fail(("%s/known:" % prop + "+".join(sorted(causes))) if causes else sig, dict(kind="write", files=files, uri=uri, inc=inc, vseed=vseed), sig + ": " + detail)
+                    ctx.fail(("%s/known:" % prop + "+".join(sorted(causes))) if causes else sig, dict(kind="write", files=files, uri=uri, inc=inc, vseed=vseed, vkinds=["as-parsed"] if shape == "wide" else None), sig + ": " + detail)
             if prop == "C05":
                 base = [f for f in files if f[0].endswith("Opc.Ua.NodeSet2.xml")]
                 if base:
@@ -364,7 +398,7 @@ def run(ctx, prop):
                     for sig, detail in oracle_c05(work, G, tables, g, base[0]):
                         # a recorded defect absorbs only the kind of failure it explains: the defaulted version shows in the models and nowhere else
                         cs = causes & ({"model-version-defaulted"} if sig == "C05/models" else STRUCTURAL_CAUSES)
-                        ctx.fail(("C05/known:" + "+".join(sorted(cs))) if cs else sig, dict(kind="roundtrip", files=files, vseed=vseed), sig + ": " + detail)
+                        ctx.fail(("C05/known:" + "+".join(sorted(cs))) if cs else sig, dict(kind="roundtrip", files=files, vseed=vseed, vkinds=["as-parsed"] if shape == "wide" else None), sig + ": " + detail)
                     # the same round trip executed INSIDE the model (write_text for every namespace, then parse_text_files on those texts and the
                     # untouched base document) against the implementation's write-then-parse_xml_files, both reduced to (URI, identifier) level
                     targets = [u for u in G.namespaces[1:] if u != "None"]
@@ -553,7 +587,7 @@ def case_replay(case, prop):
         paths = graphprops.write_files(work, files)
         st, G = graphprops.build(paths)
         if G is None: return [("%s/case-unbuildable" % prop, "%r" % (st,))]
-        if "vseed" in case: _, G = graph_variant(G, random.Random(case["vseed"]))
+        if "vseed" in case: _, G = graph_variant(G, random.Random(case["vseed"]), case.get("vkinds"))
         tables = graph_tables(G)
         if case["kind"] == "roundtrip":
             base = [f for f in files if f[0].endswith("Opc.Ua.NodeSet2.xml")]
